@@ -1,0 +1,76 @@
+package eval
+
+import (
+	"ti/base"
+	"ti/context"
+	"ti/parser"
+)
+
+// inlineVisibility handles a visibility keyword that has something after it
+// on its line: 'private def m ... end' (or 'private attr_reader :x') applies
+// to that definition only, and 'private :a, :b' to the methods named. It
+// reports whether the keyword was such a call; a keyword alone on its line
+// opens a section, which is left to the caller.
+func (e *Evaluator) inlineVisibility(
+	p *parser.Parser,
+	ctx context.Context,
+	keyword string,
+) (bool, error) {
+
+	nextT, err := p.Read()
+	if err != nil {
+		return false, err
+	}
+
+	if nextT == nil {
+		return false, nil
+	}
+
+	if nextT.IsNewLineIdentifier() {
+		p.Unget()
+		return false, nil
+	}
+
+	// ctx is a copy: the section of the enclosing body is not changed
+	switch keyword {
+	case "private":
+		ctx.StartPrivate()
+	case "protected":
+		ctx.StartProtected()
+	default:
+		ctx.EndPrivate()
+		ctx.EndProtected()
+	}
+
+	isName := func(t *base.T) bool {
+		return base.IsSymbol(t.ToString())
+	}
+
+	if !isName(nextT) {
+		return true, e.Eval(p, ctx, nextT)
+	}
+
+	for nextT != nil && !nextT.IsNewLineIdentifier() {
+		if isName(nextT) {
+			base.SetMethodVisibility(
+				ctx.GetFrame(),
+				ctx.GetClass(),
+				nextT.ToString()[1:],
+				ctx.IsDefineStatic,
+				ctx.IsPrivate,
+				ctx.IsProtected,
+			)
+		}
+
+		nextT, err = p.Read()
+		if err != nil {
+			return true, err
+		}
+	}
+
+	if nextT != nil {
+		p.Unget()
+	}
+
+	return true, nil
+}
